@@ -16,6 +16,9 @@ using namespace UTAP::Constants;
 
 namespace sim {
 
+void (*g_on_traversal)(int delta) = nullptr;
+
+
 namespace {
 
 struct Dumper
@@ -697,6 +700,7 @@ struct Dumper
 
 std::vector<DiagView> view_diagnostics(Document& doc)
 {
+    TraversalScope traversal_scope;
     std::vector<DiagView> out;
     auto add = [&](const UTAP::error_t& e, bool err) {
         DiagView d;
@@ -708,6 +712,8 @@ std::vector<DiagView> view_diagnostics(Document& doc)
         d.eline = e.end.line;
         d.scol = e.position.start - e.start.position;
         d.ecol = e.position.end - e.end.position;
+        d.abs_start = e.position.start;
+        d.abs_end = e.position.end;
         d.unknown = (e.position.start == (uint32_t)position_t::unknown_pos && e.position.end == (uint32_t)position_t::unknown_pos) ||
                     e.position.start < e.start.position || e.position.end < e.end.position;
         out.push_back(std::move(d));
@@ -721,6 +727,7 @@ std::vector<DiagView> view_diagnostics(Document& doc)
 
 std::string dump_document(Document& doc, const DumpOpts& o)
 {
+    TraversalScope traversal_scope;
     Dumper d{doc, o};
     d.document();
     return d.os.str();
@@ -728,6 +735,7 @@ std::string dump_document(Document& doc, const DumpOpts& o)
 
 std::string dump_expr(Document& doc, const expression_t& e, const DumpOpts& o, bool root_pos)
 {
+    TraversalScope traversal_scope;
     Dumper d{doc, o};
     d.expr(e, 0, root_pos);
     return d.os.str();
@@ -735,6 +743,7 @@ std::string dump_expr(Document& doc, const expression_t& e, const DumpOpts& o, b
 
 std::string dump_diagnostics(Document& doc, const DumpOpts& o)
 {
+    TraversalScope traversal_scope;
     Dumper d{doc, o};
     d.diags();
     return d.os.str();
@@ -814,6 +823,7 @@ std::string loc_flag(const symbol_t& s)
 
 std::string summarize_document(Document& doc)
 {
+    TraversalScope traversal_scope;
     std::ostringstream os;
     auto decl_list = [&](declarations_t& d, bool global) {
         for (auto& v : d.variables) {
@@ -1065,6 +1075,7 @@ struct C08
 
 std::string check_c08(Document& doc, bool ok_no_errors)
 {
+    TraversalScope traversal_scope;
     C08 c{doc};
     c.decls(doc.get_globals(), "globals");
     for (auto& t : doc.get_templates()) {
@@ -1140,6 +1151,7 @@ std::vector<size_t> line_lengths(const std::string& text)
 
 std::string check_c06a(Document& doc, const std::string& delivered, bool xml)
 {
+    TraversalScope traversal_scope;
     auto diags = view_diagnostics(doc);
     if (diags.empty())
         return "";
@@ -1226,8 +1238,10 @@ std::string check_c06a(Document& doc, const std::string& delivered, bool xml)
 }
 
 
-std::string check_c06_block(Document& doc, size_t errors_before, size_t warnings_before, const std::string& text, const std::string& xpath)
+std::string check_c06_block(Document& doc, size_t errors_before, size_t warnings_before, const std::string& text, const std::string& xpath,
+                            uint32_t clock_before, uint32_t clock_after)
 {
+    TraversalScope traversal_scope;
     auto diags = view_diagnostics(doc);  // errors first, then warnings
     const size_t nerr = doc.get_errors().size();
     auto lens = line_lengths(text);
@@ -1242,6 +1256,10 @@ std::string check_c06_block(Document& doc, size_t errors_before, size_t warnings
         // a query parse may re-run the type checker over the model and so re-report errors of other blocks under their
         // own paths; those are judged where their block is loaded (C06a), not here
         if (d.path != xpath)
+            continue;
+        // ... and diagnostics about texts parsed into this document earlier (same path or not) lie before the stretch of
+        // the position clock this call consumed
+        if (!(d.abs_start >= clock_before && d.abs_start <= clock_after))
             continue;
         if (d.unknown)
             return where + " has an unknown position";
